@@ -741,6 +741,20 @@ func (ev *SpecEnv) callExpr(x *ast.CallExpr) (Val, types.Type) {
 		need(1)
 		v, t := ev.eval(x.Args[0])
 		return Scalar{ev.mvalOf(v, t)}, nil
+	case "ghostof":
+		// ghostof(x, "name"): a ghost attribute of the (symbolic) interface value x
+		need(2)
+		v, _ := ev.eval(x.Args[0])
+		lit, ok := x.Args[1].(*ast.BasicLit)
+		if !ok {
+			ev.fail("ghostof needs a string literal")
+		}
+		gname, _ := strconv.Unquote(lit.Value)
+		iv, ok := v.(IfaceV)
+		if !ok || iv.Sym == nil {
+			ev.fail("ghostof() needs a symbolic interface value, got %s", valString(v))
+		}
+		return Scalar{ev.ex.ifaceGhost(ev.st, iv, gname)}, nil
 	case "implements":
 		need(2)
 		v, _ := ev.eval(x.Args[0])
